@@ -178,26 +178,44 @@ Proof.
     simpl. eapply Inv_pub_eq; eauto.
 Qed.
 
+Lemma good_readd : forall s i p e, Inv c s -> good c s (readd c s i p e) false.
+Proof.
+  intros s i p e I. unfold readd. destruct p; apply good_weaken; [apply good_insert|apply good_add]; exact I.
+Qed.
+Lemma good_put_back_at : forall l s e, Inv c s -> good c s (put_back_at c s e l) false.
+Proof.
+  induction l as [|[i p] r IH]; intros s e I; simpl.
+  - split; auto. split; [discriminate|intro; discriminate].
+  - apply good_bind; [apply good_readd; exact I|]. intros s1 I1. apply IH. exact I1.
+Qed.
+Lemma good_restore_at : forall l s e, Inv c s -> good c s (restore_at c s e l) false.
+Proof.
+  induction l as [|[i p] r IH]; intros s e I; simpl.
+  - split; auto. split; [discriminate|intro; discriminate].
+  - destruct (contains c s i e); [apply IH; exact I|].
+    apply good_bind; [apply good_readd; exact I|]. intros s1 I1. apply IH. exact I1.
+Qed.
+
 Lemma good_set_semantic_id : forall s e m, Inv c s -> good c s (set_semantic_id c s e m) false.
 Proof.
   intros s e m I. unfold set_semantic_id. destruct (e_parent (elems s e)) as [o|] eqn:P.
   2:{ split; [apply Inv_set_sem; exact I|]. split; [discriminate|intro; discriminate]. }
-  unfold rekey.
   destruct (take_out c s e (owner_sets s o) []) as [[s1 lst] o1] eqn:T.
-  destruct (holder s e o (proj1 I) P) as [j [st [HJ [N [OW ME]]]]].
-  destruct (take_out_spec _ s e [] s1 lst o1 I T) as [[_ [_ [_ X]]]|[j0 [o0 [X1 [X2 [X3 [X4 X5]]]]]]].
-  { exfalso. apply (X j HJ ME). }
-  subst o1 lst. simpl.
-  destruct (set_discard_spec c s j0 e s1 o0 I X3) as [D1 [D2 _]].
-  assert (I2 : Inv c (set_sem s1 e m)) by (apply Inv_set_sem; exact D2).
-  destruct (good_add c (set_sem s1 e m) j0 e I2) as [G1 [G2 _]].
-  destruct (set_add c (set_sem s1 e m) j0 e) as [s2 o2]. simpl in G1, G2.
-  unfold bind at 2. unfold bind. destruct o2 as [|v|x].
-  - split; [apply Inv_set_sem; exact G1|]. split; [discriminate|intro; discriminate].
-  - split; [apply Inv_set_sem; exact G1|]. split; [discriminate|intro; discriminate].
-  - split; [exact G1|]. split; [exact G2|intro; discriminate].
+  assert (I1 : Inv c s1 /\ o1 = Ok).
+  { destruct (take_out_spec _ s e [] s1 lst o1 I T) as [[E1 [_ [E3 _]]]|[j0 [o0 [_ [_ [X3 [_ X5]]]]]]].
+    - subst. auto.
+    - destruct (set_discard_spec c s j0 e s1 o0 I X3) as [_ [D2 _]]. auto. }
+  destruct I1 as [I1 E1]. subst o1.
+  set (lp := map (fun i => (i, pos_in s i e)) lst).
+  destruct (good_put_back_at lp (set_sem s1 e m) e (Inv_set_sem s1 e m I1)) as [I2 [X2 _]].
+  destruct (put_back_at c (set_sem s1 e m) e lp) as [s2 o2]. simpl in I2, X2.
+  destruct o2 as [|v|x].
+  - split; [apply Inv_set_sem; exact I2|]. split; [discriminate|intro; discriminate].
+  - split; [apply Inv_set_sem; exact I2|]. split; [discriminate|intro; discriminate].
+  - destruct (good_restore_at lp (set_sem s2 e (e_sem (elems s e))) e (Inv_set_sem s2 e _ I2)) as [I3 [X3 _]].
+    destruct (restore_at c (set_sem s2 e (e_sem (elems s e))) e lp) as [s3 o3]. simpl in I3, X3.
+    destruct o3; (split; [exact I3|]; split; [assumption|intro; discriminate]).
 Qed.
-
 
 Lemma owner_has_key_false : forall s o k, owner_has_key c s o k = false ->
   forall j st, nth_error (sets s) j = Some st -> s_owner st = o -> ~ In (norm c k) (map fst (s_backend st)).
